@@ -269,7 +269,7 @@ def strategy(tier):
                 base = wone_of(base, base, base, st.sampled_from([1e300, -1e300, 1e18, -3.5e17, 1.7e308, -1.7e308, 1.5e308]))
             elif mode < 6:
                 base = wone_of(base, base, base, st.sampled_from([1e300, -1e300, 1e18, -3.5e17]))
-                if draw(st.integers(0, 5)) == 0:      # sums that overflow: every aggregate is +inf (or -inf), all tie, the first one wins
+                if draw(st.integers(0, 2)) == 0:      # sums that overflow: every aggregate is +inf (or -inf), all tie, the first one wins
                     base = st.sampled_from([1.7e308, 1.5e308, 1.2e308]) if draw(st.booleans()) else st.sampled_from([-1.7e308, -1.5e308, -1.2e308])
                     reps = max(reps, 2)
         else:
